@@ -21,6 +21,7 @@ import (
 	"github.com/coreruleset/crs-toolchain/v2/regex"
 	"github.com/coreruleset/crs-toolchain/v2/regex/operators"
 	"github.com/coreruleset/crs-toolchain/v2/regex/processors"
+	"github.com/coreruleset/crs-toolchain/v2/utils"
 )
 
 // updateCmd represents the update command
@@ -160,7 +161,7 @@ func processRule(ruleId string, chainOffset uint8, dataFilePath string, ctxt *pr
 	regex := runAssemble(dataFilePath)
 
 	rulePrefix := ruleId[:3]
-	matches, err := filepath.Glob(fmt.Sprintf("%s/*-%s-*", ctxt.RootContext().RulesDir(), rulePrefix))
+	matches, err := filepath.Glob(fmt.Sprintf("%s/*-%s-*", utils.EscapeGlob(ctxt.RootContext().RulesDir()), rulePrefix))
 	if err != nil {
 		logger.Fatal().Err(err).Msgf("Failed to find rule file for rule id %s", ruleId)
 	}
